@@ -2,6 +2,7 @@ package main
 
 import (
 	"bufio"
+	"crypto/sha256"
 	"flag"
 	"fmt"
 	"os"
@@ -10,6 +11,7 @@ import (
 	"strings"
 
 	sdk "github.com/cosmos/cosmos-sdk/types"
+	"github.com/ethereum/go-ethereum/crypto"
 )
 
 func main() {
@@ -163,6 +165,24 @@ func main() {
 			}
 		}
 		fmt.Printf("determinism runs=%d observations=%d apphashes=%d identical=%v\n", *par+2, len(ref), hashes, ok)
+	case "findnear":
+		// development aid: two deterministic keys whose Ethereum addresses share their first four bytes
+		seen := map[[4]byte]int{}
+		for i := 0; i < 400000; i++ {
+			h := sha256.Sum256([]byte(fmt.Sprintf("near-attester-%d", i)))
+			k, err := crypto.ToECDSA(h[:])
+			if err != nil {
+				continue
+			}
+			a := crypto.PubkeyToAddress(k.PublicKey)
+			var p [4]byte
+			copy(p[:], a[:4])
+			if j, ok := seen[p]; ok {
+				fmt.Println(j, i)
+				return
+			}
+			seen[p] = i
+		}
 	case "scenarios":
 		var ks []string
 		for k := range scenarios {
